@@ -92,6 +92,7 @@ fn policy_private(v: &[&Item], n: usize) -> Result<(), &'static str> {
 }
 
 struct ProverPool {
+    zk: bool,
     n: usize,
     leaf: VerifierCircuitData<F, C, D>,
     dummy: Proof,
@@ -104,7 +105,8 @@ impl ProverPool {
             return p;
         }
         self.built.fetch_add(1, std::sync::atomic::Ordering::Relaxed);
-        PrivateBatchProver::new(zk_circuits_common::circuit::wormhole_private_batch_circuit_config(), self.leaf.common.clone(), &self.leaf.verifier_only, self.n, self.dummy.clone()).expect("canonical private batch prover")
+        let cfg = plonky2::plonk::circuit_data::CircuitConfig { zero_knowledge: self.zk, ..zk_circuits_common::circuit::wormhole_private_batch_circuit_config() };
+        PrivateBatchProver::new(cfg, self.leaf.common.clone(), &self.leaf.verifier_only, self.n, self.dummy.clone()).expect("private batch prover")
     }
     fn give(&self, p: PrivateBatchProver) {
         self.free.lock().unwrap().push(p);
@@ -150,7 +152,12 @@ fn c14(tier: &str, thorough: bool) -> i32 {
         let wcx = Cx::new(&w.data);
         let (full, ft) = private_batch_circuit(n, &leaf);
         let fcx = Cx::new(&full);
-        let pool = ProverPool { n, leaf: leaf.clone(), dummy: dummy.clone(), free: Mutex::new(vec![]), built: 0.into() };
+        // commit's admission logic does not depend on the circuit config: most vectors burn a
+        // prover (a failing commit consumes it), so they use the same circuit without row
+        // blinding (4.5x faster to build); every 7th vector uses the production config and its
+        // committed partial witness is evaluated on the production recursive circuit.
+        let pool = ProverPool { zk: false, n, leaf: leaf.clone(), dummy: dummy.clone(), free: Mutex::new(vec![]), built: 0.into() };
+        let prod = ProverPool { zk: true, n, leaf: leaf.clone(), dummy: dummy.clone(), free: Mutex::new(vec![]), built: 0.into() };
         // vectors
         let alpha: Vec<usize> = if thorough { (0..items.len()).collect() } else { ["a", "b", "c", "d", "g", "h", "i", "dm", "d1", "t2"].iter().map(|s| idx(s)).collect() };
         let over: Vec<usize> = ["a", "b", "dm"].iter().map(|s| idx(s)).collect();
@@ -169,7 +176,8 @@ fn c14(tier: &str, thorough: bool) -> i32 {
             let names: Vec<&str> = its.iter().map(|i| i.name.as_str()).collect();
             let pol = policy_private(&its, n);
             let case = json!({"layer": "private", "n": n, "vector": names, "policy": pol.err().unwrap_or("ok")});
-            let prover = pool.take();
+            let use_prod = vi % 7 == 0;
+            let prover = if use_prod { prod.take() } else { pool.take() };
             let r = catch(|| prover.commit(its.iter().map(|i| i.proof.clone()).collect()));
             match r {
                 Err(p) => rep.violation(&format!("priv-panic:{n}:{names:?}"), &format!("PrivateBatchProver::commit panicked on {names:?}: {p}"), case),
@@ -201,7 +209,7 @@ fn c14(tier: &str, thorough: bool) -> i32 {
                     let slots = committed_slots(&pr, &ft);
                     let wv = wcx.run(&w.inputs(&slots), &[], &[], false).verdict;
                     let mut full_checked = false;
-                    if !wv.accepted() || vi % 7 == 0 {
+                    if use_prod {
                         // the real recursive circuit on the committed partial witness itself
                         let inputs: Vec<(Target, F)> = pr.verif_partial_witness().target_values.iter().map(|(t, v)| (*t, *v)).collect();
                         let fv = fcx.run(&inputs, &[], &[], false).verdict;
@@ -222,7 +230,7 @@ fn c14(tier: &str, thorough: bool) -> i32 {
                         // the prover is not reusable after a failed witness; drop it
                         return;
                     }
-                    if vi % 23 == 0 {
+                    if use_prod && vi % 21 == 0 {
                         // and really prove a few
                         n_proved.fetch_add(1, std::sync::atomic::Ordering::Relaxed);
                         match pr.prove() {
@@ -233,11 +241,15 @@ fn c14(tier: &str, thorough: bool) -> i32 {
                     }
                     let mut pr = pr;
                     pr.verif_reset(ft.clone());
-                    pool.give(pr);
+                    if use_prod {
+                        prod.give(pr);
+                    } else {
+                        pool.give(pr);
+                    }
                 }
             }
         });
-        plan.insert(format!("private N={n}"), json!({"vectors": vectors.len(), "commit_ok": n_ok, "full_recursive_cx_runs": n_full, "real_proves": n_proved, "provers_built": pool.built, "alphabet": alpha.iter().map(|&i| items[i].name.clone()).collect::<Vec<_>>()}));
+        plan.insert(format!("private N={n}"), json!({"vectors": vectors.len(), "commit_ok": n_ok, "full_recursive_cx_runs": n_full, "real_proves": n_proved, "provers_built": pool.built, "production_config_provers_built": prod.built, "alphabet": alpha.iter().map(|&i| items[i].name.clone()).collect::<Vec<_>>()}));
         rep.sample(json!({"layer": "private", "n": n, "vector": vectors[vectors.len() / 3].iter().map(|&i| items[i].name.clone()).collect::<Vec<_>>()}));
     }
 
@@ -381,6 +393,13 @@ fn c15(tier: &str, thorough: bool) -> i32 {
         reals.iter().position(|r| slot_of_proof(r, Z4).nullifier == s.nullifier).map(|x| x as i64).unwrap_or(-2)
     };
     let ns: Vec<usize> = if thorough { vec![2, 3, 4, 5] } else { vec![2, 3, 4] };
+    // Every script is followed by SLACK canonical blocks that a conforming commit never touches,
+    // so a commit that draws more (or fewer) random bytes than rand 0.8's Fisher-Yates plus one
+    // 32-byte block per slot is observed (anomaly) instead of crashing the harness. Anomalies
+    // alone are a machinery matter; together with a failed oracle they are part of a violation.
+    const SLACK: usize = 8;
+    let slack: Vec<u8> = (0..SLACK).flat_map(|i| canon_block(7000 + i as u64)).collect();
+    let mut anomalies: Vec<String> = Vec::new();
     let mut scripts_total = 0u64;
     let mut edges = 0u64;
     let mut plan = serde_json::Map::new();
@@ -413,6 +432,7 @@ fn c15(tier: &str, thorough: bool) -> i32 {
                     for s in 0..n {
                         bytes.extend_from_slice(&canon_block((si * 10 + s) as u64));
                     }
+                    bytes.extend_from_slice(&slack);
                     verif_hooks::set_rng_script(Some(bytes));
                     let r = catch(|| prover.commit(supplied.clone()));
                     let remaining = verif_hooks::rng_script_remaining();
@@ -433,8 +453,8 @@ fn c15(tier: &str, thorough: bool) -> i32 {
                         }
                         Ok(Ok(p2)) => {
                             prover = p2;
-                            if remaining != Some(0) {
-                                machinery_error(&format!("C15: {remaining:?} scripted random bytes left over; the RNG consumption pattern changed, the scripted-RNG harness needs updating"));
+                            if remaining != Some(slack.len()) {
+                                anomalies.push(format!("N={n},k={k},script {script:?}: {:?} scripted bytes remain, expected {}", remaining, slack.len()));
                             }
                             let slots = committed_slots(&prover, &ft);
                             let arr: Vec<i64> = slots.iter().map(ident).collect();
@@ -505,6 +525,7 @@ fn c15(tier: &str, thorough: bool) -> i32 {
                     bytes.extend_from_slice(&b);
                     expect.push(vharness::leafnative::bytes_to_limbs(&b));
                 }
+                bytes.extend_from_slice(&slack);
                 verif_hooks::set_rng_script(Some(bytes));
                 let r = catch(|| prover.commit(reals[..k].to_vec()));
                 let remaining = verif_hooks::rng_script_remaining();
@@ -514,8 +535,8 @@ fn c15(tier: &str, thorough: bool) -> i32 {
                 match r {
                     Ok(Ok(p2)) => {
                         prover = p2;
-                        if remaining != Some(0) {
-                            machinery_error(&format!("C15: {remaining:?} scripted random bytes left over on the preimage path"));
+                        if remaining != Some(slack.len()) {
+                            anomalies.push(format!("N={n}, preimage rejections {pat:?}: {:?} scripted bytes remain, expected {}", remaining, slack.len()));
                         }
                         let slots = committed_slots(&prover, &ft);
                         for (s, sl) in slots.iter().enumerate() {
@@ -602,6 +623,12 @@ fn c15(tier: &str, thorough: bool) -> i32 {
                 rep.distinct(hash64(&("pub", m, &ord)));
                 prover.verif_reset(pt.clone());
             }
+        }
+    }
+    if !anomalies.is_empty() {
+        rep.extra("rng_consumption_anomalies", json!(anomalies.iter().take(5).collect::<Vec<_>>()));
+        if rep.n_violations() == 0 {
+            machinery_error(&format!("C15: the commit no longer consumes random bytes like rand 0.8's Fisher-Yates + one 32-byte block per slot ({}), but every observable oracle held: the scripted-RNG harness needs updating", anomalies[0]));
         }
     }
     rep.eval(scripts_total);
